@@ -1,2 +1,2 @@
 #!/bin/sh
-cd /verif && exec python3-vt -m props.replay_phi 0.0001220703125 0.0001220703125
+cd /verif && exec python3-vt -m props.replay_phi 0.0001220703125 0.9765625
